@@ -180,6 +180,12 @@ def evaluate(P, cases, stats):
     for c, (py, mo) in zip(cases, res):
         if 'PROTOCOL' in mo:
             raise Infra('driver rejected case %s' % c)
+        if 'p.timeout' in py:
+            if P.pid in ('C03', 'C09', 'C10'):
+                findings.append(dict(case=c, cls='prop', key='decoding did not terminate within the per-case limit',
+                                     py='timeout=' + py['p.timeout'], model=''))
+                continue
+            raise Infra('case timed out (%s s) on the python side: %s' % (py['p.timeout'], c[:300]))
         if 'HARNESS' in py:
             if py['HARNESS'] == 'crash':
                 findings.append(dict(case=c, cls='prop', key='import/crash', py=py.get('stderr', '')[-800:], model=''))
